@@ -464,9 +464,15 @@ def analyse(c, case, outs):
             if first_in_proc and ip > 0:
                 # first update of the variable in the resumed process
                 if case["seg"] == "restart":
-                    # the state written at the end of the previous process must carry (x_K, v_(K-1/2))
-                    for nm, o, m_, sc in (("extended_x", loaded[0], model.x, 1.0), ("extended_v", loaded[1], model.v, vscale)):
-                        if not close(o, m_, RTOL * (n_int + 1) + 1e-13, sc):
+                    # the state written at the end of the previous process must carry (x_K, v_(K-1/2)): the values reported
+                    # at the beginning of the step that is going to be repeated
+                    chk = []
+                    if LAWS_ON and last is not None:
+                        chk += [("extended_x", loaded[0], last["x_rep"], 1.0, 1e-13), ("extended_v", loaded[1], last["v_rep"], vscale, 1e-13)]
+                    if LOCK_ON:
+                        chk += [("extended_x", loaded[0], model.x, 1.0, RTOL * (n_int + 1) + 1e-13), ("extended_v", loaded[1], model.v, vscale, RTOL * (n_int + 1) + 1e-13)]
+                    for nm, o, m_, sc, tl in chk:
+                        if not close(o, m_, tl, sc):
                             V.bad = ("state:%s:%s" % (nm, K), "resume at step %d: state has %s = %.15g, the particle had %.17g at the beginning of that step" % (
                                 t, nm, o, m_))
                             return V
